@@ -50,11 +50,11 @@ theorem walkLoop_in (b : Block) (bs : List Block) (off len : Nat) (past : Bool)
   · rfl
   · next h => rw [(dlen_past b off len hin h).1, (dlen_past b off len hin h).2]
 
-/-- one step, offset outside the block -/
+/-- one step, offset outside the block: undefined after the first block, otherwise the block is
+    skipped (the break test is not evaluated before a block has been entered) -/
 theorem walkLoop_out (b : Block) (bs : List Block) (off len : Nat) (past : Bool)
     (hout : ¬ (b.base ≤ off ∧ off < b.base + b.size)) :
-    walkLoop (b :: bs) off len past =
-      if past then none else if b.base + b.size ≥ off + len then none else walkLoop bs off len false := by
+    walkLoop (b :: bs) off len past = if past then none else walkLoop bs off len false := by
   rw [walkLoop, if_neg hout]
 
 /-! ### slice algebra for two adjacent blocks -/
@@ -102,12 +102,10 @@ theorem map_flatten_cons (c : Bytes) (o : Option (List Bytes)) :
   cases o <;> simp
 
 /-- Two adjacent non-empty blocks at the head of the remaining list behave like their
-    concatenation, for every loop state, except for the zero-length range that starts exactly at
-    the inner boundary while no block has been consumed yet. -/
+    concatenation, for every loop state. -/
 theorem walk_contig_step (b1 b2 : Block) (rest : List Block) (hc : b2.base = b1.base + b1.size)
     (hs1 : 0 < b1.size) (hs2 : 0 < b2.size) (off len : Nat) (past : Bool)
-    (hpast : past = true → off ≤ b1.base)
-    (hz : ¬ (past = false ∧ len = 0 ∧ off = b2.base)) :
+    (hpast : past = true → off ≤ b1.base) :
     (walkLoop (b1 :: b2 :: rest) off len past).map List.flatten =
       (walkLoop (merge b1 b2 :: rest) off len past).map List.flatten := by
   have hm : (merge b1 b2).base = b1.base := rfl
@@ -148,36 +146,25 @@ theorem walk_contig_step (b1 b2 : Block) (rest : List Block) (hc : b2.base = b1.
       rw [walkLoop_out _ _ off len true houtm]; rfl
     | false =>
       simp only [Bool.false_eq_true, if_false]
-      by_cases hb1 : b1.base + b1.size ≥ off + len
-      · rw [if_pos hb1]
-        have houtm : ¬ ((merge b1 b2).base ≤ off ∧ off < (merge b1 b2).base + (merge b1 b2).size) := by
-          rw [hm, hms]; intro h; apply hz; refine ⟨rfl, ?_, ?_⟩ <;> omega
-        have hbm : (merge b1 b2).base + (merge b1 b2).size ≥ off + len := by rw [hm, hms]; omega
-        rw [walkLoop_out _ _ off len false houtm]
-        simp [hbm]
-      · rw [if_neg hb1]
-        by_cases hin2 : b2.base ≤ off ∧ off < b2.base + b2.size
-        · have hinm : (merge b1 b2).base ≤ off ∧ off < (merge b1 b2).base + (merge b1 b2).size := by
-            rw [hm, hms]; omega
-          rw [walkLoop_in b2 rest off len false hin2, walkLoop_in (merge b1 b2) _ off len false hinm]
-          have e1 : (merge b1 b2).base + (merge b1 b2).size = b2.base + b2.size := by rw [hm, hms]; omega
-          rw [e1, chunk_merge_right b1 b2 off len hc hin2.1]
-        · have houtm : ¬ ((merge b1 b2).base ≤ off ∧ off < (merge b1 b2).base + (merge b1 b2).size) := by
-            rw [hm, hms]; omega
-          rw [walkLoop_out b2 rest off len false hin2, walkLoop_out _ _ off len false houtm]
-          have e1 : (merge b1 b2).base + (merge b1 b2).size = b2.base + b2.size := by rw [hm, hms]; omega
-          rw [e1]
+      by_cases hin2 : b2.base ≤ off ∧ off < b2.base + b2.size
+      · have hinm : (merge b1 b2).base ≤ off ∧ off < (merge b1 b2).base + (merge b1 b2).size := by
+          rw [hm, hms]; omega
+        rw [walkLoop_in b2 rest off len false hin2, walkLoop_in (merge b1 b2) _ off len false hinm]
+        have e1 : (merge b1 b2).base + (merge b1 b2).size = b2.base + b2.size := by rw [hm, hms]; omega
+        rw [e1, chunk_merge_right b1 b2 off len hc hin2.1]
+      · have houtm : ¬ ((merge b1 b2).base ≤ off ∧ off < (merge b1 b2).base + (merge b1 b2).size) := by
+          rw [hm, hms]; omega
+        rw [walkLoop_out b2 rest off len false hin2, walkLoop_out _ _ off len false houtm]
 
 /-- …also behind any prefix of blocks that end at or before `b1` (ascending layout). -/
 theorem walk_contig_prefix (pre : List Block) (b1 b2 : Block) (rest : List Block)
     (hc : b2.base = b1.base + b1.size) (hs1 : 0 < b1.size) (hs2 : 0 < b2.size)
     (hpre : ∀ p ∈ pre, p.base + p.size ≤ b1.base) (off len : Nat) (past : Bool)
-    (hpast : past = true → off ≤ b1.base)
-    (hz : ¬ (len = 0 ∧ off = b2.base)) :
+    (hpast : past = true → off ≤ b1.base) :
     (walkLoop (pre ++ b1 :: b2 :: rest) off len past).map List.flatten =
       (walkLoop (pre ++ merge b1 b2 :: rest) off len past).map List.flatten := by
   induction pre generalizing off len past with
-  | nil => exact walk_contig_step b1 b2 rest hc hs1 hs2 off len past hpast (by omega)
+  | nil => exact walk_contig_step b1 b2 rest hc hs1 hs2 off len past hpast
   | cons p pre ih =>
     have hp : p.base + p.size ≤ b1.base := hpre p (by simp)
     have hpre' : ∀ q ∈ pre, q.base + q.size ≤ b1.base := fun q hq => hpre q (by simp [hq])
@@ -188,15 +175,46 @@ theorem walk_contig_prefix (pre : List Block) (b1 b2 : Block) (rest : List Block
       · rfl
       · next hb =>
         rw [map_flatten_cons, map_flatten_cons]
-        rw [ih hpre' _ _ true (fun _ => hp) (by omega)]
+        rw [ih hpre' _ _ true (fun _ => hp)]
     · rw [walkLoop_out p _ off len past hin, walkLoop_out p _ off len past hin]
       cases past with
       | true => rfl
       | false =>
         simp only [Bool.false_eq_true, if_false]
-        split
-        · rfl
-        · exact ih hpre' off len false (by simp) hz
+        exact ih hpre' off len false (by simp)
+
+/-- if the first consumed chunk is empty it is the only one (then `length` was 0 and the loop was
+    left at once) -/
+theorem chunk_length (b : Block) (off len : Nat) (hin : b.base ≤ off ∧ off < b.base + b.size) :
+    (b.chunk off len).length = b.dlen off len := by
+  unfold Block.chunk Block.dlen Block.size at *
+  simp only [List.length_take, List.length_drop]; omega
+
+theorem walkLoop_head_empty (bs : List Block) (off len : Nat) (past : Bool) (c : Bytes) (cs : List Bytes)
+    (h : walkLoop bs off len past = some (c :: cs)) (hc : c = []) : cs = [] := by
+  induction bs generalizing past with
+  | nil => unfold walkLoop at h; split at h <;> simp at h
+  | cons b bs ih =>
+    by_cases hin : b.base ≤ off ∧ off < b.base + b.size
+    · rw [walkLoop_in b bs off len past hin] at h
+      split at h
+      · simp only [Option.some.injEq, List.cons.injEq] at h; exact h.2.symm
+      · next hb =>
+        exfalso
+        cases hw : walkLoop bs (b.base + b.size) (off + len - (b.base + b.size)) true with
+        | none => rw [hw] at h; simp at h
+        | some r =>
+          rw [hw] at h
+          simp only [Option.map_some, Option.some.injEq, List.cons.injEq] at h
+          have hl := chunk_length b off len hin
+          rw [h.1, hc] at hl
+          unfold Block.dlen at hl
+          simp only [List.length_nil] at hl
+          omega
+    · rw [walkLoop_out b bs off len past hin] at h
+      cases past with
+      | true => simp at h
+      | false => exact ih false (by simpa using h)
 
 /-! ### the memory-map specification on one region -/
 
